@@ -11,7 +11,7 @@
 #include <sstream>
 
 namespace zd {
-Case draw_bits_case(const model::Desc & d);
+Case draw_bits_case(const model::Desc & d, bool allow_large);
 uint64_t draw_bits(Sc s);
 }
 
@@ -84,8 +84,20 @@ uint64_t draw_value(Sc s)
 
 Case draw_c07_case(const model::Desc & d)
 {
-    Case c = draw_bits_case(d);
+    Case c = draw_bits_case(d, true);
     const int arr = d.find("array");
+    if (c.data.size() > 4096) {
+        // large payload: values from a small drawn pool, placed by a hash of one drawn seed (small recipe)
+        std::vector<uint64_t> pool;
+        for (int i = 0; i < 64; ++i) {
+            pool.push_back(draw_value(d.layers[arr].out));
+        }
+        const uint64_t seed = *rc::gen::arbitrary<uint64_t>();
+        for (size_t i = 0; i < c.data.size(); ++i) {
+            c.data[i] = pool[mix(seed, i) % pool.size()];
+        }
+        return c;
+    }
     for (auto & w : c.data) {
         w = draw_value(d.layers[arr].out);
     }
